@@ -184,28 +184,55 @@ Theorem C18_save_complete :
 Proof. exact save_complete. Qed.
 Print Assumptions C18_save_complete.
 
-(* one store operation down to the file system: for every state, operation,
-   JSON writer/reader pair with parse (render d) = d, split of the content over
-   write calls and crash cut, a reader of the config path finds the complete old
-   document or the complete new one (then with mode 0600); after the last
-   micro-step it finds the new one; no other file changes *)
+(* one store operation down to the file system: for every state, operation, split
+   of the content over write calls and crash cut, a reader of the config path
+   finds the complete old document or the complete new one (then with mode
+   0600); after the last micro-step it finds the new one; no other file changes.
+   "Finds document d" is up to the representation ([eqv]: fdoc is not canonical
+   and a JSON writer sorts keys); the only JSON fact assumed is [reads_back]: the
+   document THIS operation writes reads back as an equivalent document *)
 Theorem C18_atomic_op :
   forall (enc : str -> str) (dec : str -> option str)
-         (render : fdoc -> str) (parse : str -> option fdoc) (chunking : str -> list str),
-    (forall d, parse (render d) = Some d) -> (forall x, concat (chunking x) = x) ->
+         (render : fdoc -> str) (parse : str -> option fdoc) (eqv : fdoc -> fdoc -> Prop)
+         (chunking : str -> list str),
+    (forall x, concat (chunking x) = x) ->
     forall (dir : list path) (p t : path) st o s pre,
       t <> p -> fget t s = None ->
-      disk_view parse p s = view_of (st_file st) ->
+      reads_back enc dec render parse eqv st o ->
+      disk_is parse eqv p s (st_file st) ->
       crash_cut (op_steps enc dec render chunking dir p t st o) pre ->
       let st' := fst (step enc dec st o) in
       let s' := exec_all s pre in
-      (disk_view parse p s' = view_of (st_file st) \/
-       disk_view parse p s' = view_of (st_file st') /\
+      (disk_is parse eqv p s' (st_file st) \/
+       disk_is parse eqv p s' (st_file st') /\
        (saves st o = true -> exists f, fget p s' = Some f /\ f_mode f = mode_file)) /\
-      (pre = op_steps enc dec render chunking dir p t st o -> disk_view parse p s' = view_of (st_file st')) /\
+      (pre = op_steps enc dec render chunking dir p t st o -> disk_is parse eqv p s' (st_file st')) /\
       (forall q, q <> p -> q <> t -> fget q s' = fget q s).
 Proof. exact atomic_op. Qed.
 Print Assumptions C18_atomic_op.
+
+(* the hypotheses of C18_atomic_op are satisfiable: a (toy) writer/reader pair that
+   sorts the two top-level keys, a Put on an empty store, the cut after the write *)
+Example C18_example_atomic_op :
+  let c := {| c_user := []; c_pass := []; c_refresh := b "t"; c_access := [] |} in
+  let st := {| st_mem := empty_mem; st_file := None |} in
+  let o := Put (b "r") c in
+  let d := [(configFieldAuths, TAuths [(b "r", Fresh [] (b "t") [])])] in
+  let render := fun _ : fdoc => b "{""auths"":{""r"":{""identitytoken"":""t""}}}" in
+  let parse := fun s : str => if str_eqb s (render []) then Some d else None in
+  let s0 := {| fs_files := []; fs_dirs := [] |} in
+  st_file (fst (step b64_encode b64_decode st o)) = Some d /\
+  reads_back b64_encode b64_decode render parse eq st o /\
+  disk_is parse eq (b "cfg") s0 (st_file st) /\
+  disk_is parse eq (b "cfg")
+          (exec_all s0 (op_steps b64_encode b64_decode render (fun x => [x]) [b "dir"] (b "cfg") (b "tmp") st o))
+          (Some d).
+Proof.
+  split; [vm_compute; reflexivity|]. split; [|split].
+  - intros d0 E. vm_compute in E. injection E as <-. eexists. split; [vm_compute; reflexivity|reflexivity].
+  - reflexivity.
+  - eexists. eexists. split; [vm_compute; reflexivity|]. split; [vm_compute; reflexivity|reflexivity].
+Qed.
 
 (* concurrent callers on one store.  Operations are NOT atomic in the model
    (lock, cache update, file write, unlock are separate steps of a transition
